@@ -166,3 +166,29 @@ pub fn explore<Sy: System>(sys: &Sy, lim: &Limits, rep: &Report, name: &str) -> 
     rep.part(json!({"model": name, "states": states.len(), "transitions": transitions, "max_depth": depth, "closure_reached": closed}));
     Explored { states, meta, transitions, depth, closed }
 }
+
+/// Re-execute a recorded history (list of op_json values) on a fresh system, without the
+/// explorer: returns the transcript lines and the state reached. An op that is not enabled in
+/// the state reached so far is a hard error (divergence while replaying a prefix).
+pub fn replay_history<Sy: System>(sys: &Sy, history: &[Value]) -> Result<(Vec<String>, Sy::State), String> {
+    let mut s = sys.init().into_iter().next().ok_or("no initial state")?;
+    let mut lines = vec![];
+    for (i, h) in history.iter().enumerate() {
+        let op = sys.ops(&s).into_iter().find(|o| &sys.op_json(o) == h).ok_or_else(|| format!("step {}: op {} is not enabled in the state reached (replay diverged)", i, h))?;
+        let mut acc = Acc::default();
+        let out = sys.step(&s, &op, &mut acc);
+        let obs: Vec<String> = acc.outcomes.keys().cloned().collect();
+        lines.push(format!("#{} {} -> {}", i, h, obs.join(", ")));
+        for (sig, what) in &out.viols {
+            lines.push(format!("    VIOLATED [{}]: {}", sig, what));
+        }
+        match out.next {
+            Some(n) => s = n,
+            None => {
+                lines.push("    (transition dropped: no successor state)".into());
+                break;
+            }
+        }
+    }
+    Ok((lines, s))
+}
